@@ -879,6 +879,16 @@ def _one(C, tmp, ctx, text, update, remove, lines, pending, origin):
     # model requests
     lines.append("cp2kread " + hexs(text))
     pending.append(({"fn": "read_cp2k_input", "template": text}, r.read_canon))
+    # hypothesis of Lean cp2k_print_read_roundtrip, discharged on every text seen: the trees the reader builds are
+    # `Tree.ok`, and the arena printer agrees with the tree printer on the state that was read
+    if isinstance(r.read_canon, str) and not r.read_canon.startswith("err:"):
+        lines.append("cp2kspec " + hexs(text))
+        pending.append(({"fn": "read_cp2k_input: parsed trees are Tree.ok, printText = printForest", "template": text},
+                        spec_expected(text)))
+        if r.err is None and r.out_text is not None and isinstance(r.out_canon, str) and not r.out_canon.startswith("reread-"):
+            lines.append("cp2kspec " + hexs(r.out_text))
+            pending.append(({"fn": "update_cp2k_input output: parsed trees are Tree.ok, printText = printForest",
+                             "template": r.out_text}, spec_expected(r.out_text)))
     if "text" in r.rec:
         lines.append(edit_line("cp2kupdate", r.rec["text"], update, remove))
         pending.append(({"fn": "update_cp2k_input", "template(observed sibling order)": r.rec["text"],
@@ -888,6 +898,21 @@ def _one(C, tmp, ctx, text, update, remove, lines, pending, origin):
         pending.append(({"fn": "update_cp2k_input(second application)", "template(observed sibling order)": r2.rec["text"],
                          "update": enc_update(update), "remove": remove}, r2.answer()))
     return r
+
+
+def spec_expected(text):
+    """what op cp2kspec must answer for a text that parses: every tree the reader builds is `Tree.ok` — except when a
+    section header is written with white space after the '&' and a name that starts with "end" (`& END`, `& Endpoint`):
+    the reader then opens a section whose printed header `&END…` reads back as a section END (malformed input; the
+    round-trip theorem does not speak about it)"""
+    import re
+    for line in re.split(r"\r\n|\r|\n", text):
+        st = line.strip()
+        if st.startswith("&") and not st[1:].lower().startswith("end"):
+            toks = st[1:].split()
+            if toks and toks[0].lower().startswith("end"):
+                return "not-ok same"
+    return "ok same"
 
 
 def _refkeys(C, tmp, text, lines, pending):
